@@ -1,9 +1,57 @@
 import Rare.Drv.Expr
+import Rare.Drv.C10
+import Rare.Drv.C14
+import Rare.Model.C02
+import Rare.Model.Expr.Funcs.Extra
+/-!
+Line-protocol ops of C08:
+
+* `expr <opt> <template> <elems> <keys>` – the shared op (standard registry);
+* `exprw <color 0|1> <unicode 0|1> <noload 0|1> <path> <content | x> <opt> <template> <elems> <keys>` – the
+  same with `color`, `bar`, `load`, `json` modelled (`Funcs/Extra.lean`) in the world described by the first
+  five fields: the two package switches, `stdlib.DisableLoad`, and a file system with one readable file
+  (`x` = that file cannot be read either).  `float64` is IEEE double (`Drv.C14.floatArith`), gjson answers
+  `unmodelled json`;
+* `funcs <opt> <file> <template> <elems> <keys>` – a definitions file (user functions → `lazySubContext`), as in C10;
+* `gm <line> <indices> <idx>` – `SliceSpaceExpressionContext.GetMatch(idx)` (model `C02.getMatch`).
+-/
 namespace Rare.Drv.C08
+open Rare Rare.Expr Rare.Proto
+
+def world (color unicode noload : Bool) (path : Bytes) (content : Option Bytes) : Funcs.Extra.World Float :=
+  { arith := Rare.Drv.C14.floatArith, env := ⟨color, unicode⟩, loadDisabled := noload,
+    fs := fun p => if p = path then content else none,
+    gjson := fun _ _ => .panic "unmodelled:json" }
+
+def registryW (w : Funcs.Extra.World Float) : Registry :=
+  mkRegistry (stdTable ++ Funcs.Extra.table w) Gen.stdFunctionNames
+
+def decInts (s : String) : Option (List Int) :=
+  if s = "." then some [] else (s.splitOn ",").mapM String.toInt?
 
 def handle (args : List String) : String :=
-  match Rare.Drv.Expr.handle args with
-  | some a => a
-  | none => "bad-op"
+  match args with
+  | ["exprw", c, u, nl, p, ct, o, t, el, ks] =>
+    let content : Option (Option Bytes) := if ct = "x" then some none else (Hex.dec ct).map some
+    match Hex.dec p, content, Hex.dec t, decHexList el, decHexList ks with
+    | some path, some cont, some tb, some elems, some keys =>
+      match Rare.Drv.Expr.decodeTemplate tb with
+      | some tc =>
+        Rare.Drv.Expr.evalWith (registryW (world (c == "1") (u == "1") (nl == "1") path cont)) (o == "1") tc
+          (Rare.Drv.Expr.mkCtx elems keys)
+      | none => "bad-args"
+    | _, _, _, _, _ => "bad-args"
+  | ["gm", l, ix, i] =>
+    match Hex.dec l, decInts ix, i.toInt? with
+    | some line, some indices, some idx =>
+      match Rare.C02.getMatch line indices idx with
+      | .ok b => s!"ok {Hex.enc b}"
+      | .error _ => "panic"
+    | _, _, _ => "bad-args"
+  | "funcs" :: _ => Rare.Drv.C10.handle args
+  | _ =>
+    match Rare.Drv.Expr.handle args with
+    | some a => a
+    | none => "bad-op"
 
 end Rare.Drv.C08
